@@ -126,6 +126,27 @@ fn trace_json(o: &Outcome) -> serde_json::Value {
     })
 }
 
+/// Watchdog on a real OS thread (outside the simulation): abort the process when
+/// `beat` has not changed for `limit` seconds of wall clock -- e.g. a real lock
+/// held across a scheduling point blocks the one simulator thread for good.
+fn start_watchdog(beat: std::sync::Arc<std::sync::atomic::AtomicU64>, limit: u64) {
+    std::thread::spawn(move || {
+        let mut last = u64::MAX;
+        let mut since = std::time::Instant::now();
+        loop {
+            std::thread::sleep(std::time::Duration::from_secs(1));
+            let b = beat.load(std::sync::atomic::Ordering::Relaxed);
+            if b != last {
+                last = b;
+                since = std::time::Instant::now();
+            } else if since.elapsed().as_secs() >= limit {
+                eprintln!("WATCHDOG: no progress for {limit}s (marker {b}), aborting");
+                std::process::abort();
+            }
+        }
+    });
+}
+
 fn quiet_panics() {
     // panics are part of normal operation (caught and turned into verdicts);
     // keep stderr readable unless asked otherwise
@@ -155,6 +176,10 @@ fn cmd_run(args: &[String]) -> i32 {
     let sb = Sandbox::new();
     let start = std::time::Instant::now();
     let progress_path = outdir.join(format!("worker_{worker}.progress"));
+    // a single run that makes no progress for --watchdog-secs aborts the worker;
+    // the supervisor then re-runs that run index alone and reports it
+    let beat = std::sync::Arc::new(std::sync::atomic::AtomicU64::new(0));
+    start_watchdog(beat.clone(), arg_u64(args, "--watchdog-secs", 90));
     let mut runs = 0u64;
     let mut execs = 0u64;
     let mut steps = 0u64;
@@ -184,6 +209,7 @@ fn cmd_run(args: &[String]) -> i32 {
             break;
         }
         std::fs::write(&progress_path, format!("{index}\n")).ok();
+        beat.store(index.wrapping_add(1), std::sync::atomic::Ordering::Relaxed);
         let case = make_case(engine, seed, &tier, index);
         let o = engine.execute(&case, &sb);
         if let Some(d) = digests.as_mut() {
@@ -310,6 +336,10 @@ fn cmd_one(args: &[String]) -> i32 {
         return 0;
     }
     quiet_panics();
+    start_watchdog(
+        std::sync::Arc::new(std::sync::atomic::AtomicU64::new(1)),
+        arg_u64(args, "--watchdog-secs", 60),
+    );
     let sb = Sandbox::new();
     let o = engine.execute(&case, &sb);
     match &o.violation {
@@ -383,6 +413,7 @@ fn cmd_replay(args: &[String]) -> i32 {
         }
     };
     quiet_panics();
+    start_watchdog(std::sync::Arc::new(std::sync::atomic::AtomicU64::new(1)), 300);
     let sb = Sandbox::new();
     let o = engine.execute(&case, &sb);
     if o.log.diverged {
